@@ -80,8 +80,10 @@ def tree_for(programs):
     files = {}
     for p in programs:
         files.setdefault(p.file, [])
-        files[p.file].extend(p.extra)
+        late = [n for n in p.extra if n.get("name", "").startswith("Late")]
+        files[p.file].extend(n for n in p.extra if n not in late)
         files[p.file].append(p.node)
+        files[p.file].extend(late)  # types named Late* are declared AFTER the program that uses them
     return files
 
 
